@@ -19,7 +19,7 @@ RULE = (
     "prior state, on tree-git and bare-git stores, in two sharing modes (one Store object shared by all threads, as in one server process; one Store/Repo object per operation on the same directory, "
     "as separate processes). The harness owns the schedule: each operation runs in a thread that holds a baton and offers it back at every source line of xandikos/store/*.py and at every audited "
     "file-system event inside the store directory (this splits dulwich calls). Enumeration: every schedule with one pre-emption over all fine points (quick: every 3rd point), two pre-emptions over "
-    "the file-system points (thorough), three operations with one pre-emption (thorough), plus Hypothesis-drawn random schedules with unbounded pre-emptions. Oracle: per-operation outcomes "
+    "the file-system points, every 12th point per axis (thorough), three operations with one pre-emption (thorough), plus Hypothesis-drawn random schedules with unbounded pre-emptions. Oracle: per-operation outcomes "
     "{ok, InvalidETag, DuplicateUid, NoSuchItem, Locked, other} and the final {name: bytes} (store re-opened and read completely) must equal those of some sequential execution of the operations not "
     "answered Locked; Locked operations must have no effect. Non-trivial: a schedule with >=1 pre-emption in which every operation had started before another finished; distinct by "
     "(template, sharing mode, back end, switch points)."
@@ -313,7 +313,8 @@ def unit(shard, units, step):
         ops = template_ops(tname)
         fine = kind != "bound2"
         try:
-            prior, etags, scheds, scratch = enumerate_pair(backend, sharing, tname, ops, step, fine, bound2=(kind == "bound2"))
+            # two pre-emptions: every 12th pair of file-system points per axis (all pairs would be ~6.5 million schedules)
+            prior, etags, scheds, scratch = enumerate_pair(backend, sharing, tname, ops, step * 12 if kind == "bound2" else step, fine, bound2=(kind == "bound2"))
         except Exception:
             import traceback
 
